@@ -96,6 +96,10 @@ def inspected_histories(rng, nhist, nreg):
     spell = units + ["1000ft3"]
     events = []
     for tid in range(nhist):
+        if tid % 3 == 2:
+            units = ["m", "cm", "Mcf", "s", "1000ft3"]       # the application registers a symbol that is itself a legacy spelling
+        else:
+            units = ["m", "cm", "Mcf", "s"]
         w = regworld.RegWorld(regcheck_factors())
         try:
             def do(op, a):
